@@ -72,7 +72,8 @@ ASSUMPTIONS = [
 MIN_COUNTERS = {
     'quick': {'lift_method_evaluations': 5000, 'lift_builtin_evaluations': 5000,
               'lift_value_agreements': 6000, 'law_samples': 20000,
-              'law_exact_tie': 1500,
+              'law_exact_tie': 1500, 'evaluated_with_non_None_inval': 20000,
+              'channellist_narop_longer_list_argument': 50,
               'stream_history_pulls_compared': 20000,
               'reentrant_function_calls_compared': 3000,
               'concurrent_function_calls_compared': 3000,
@@ -85,7 +86,8 @@ MIN_COUNTERS = {
     'thorough': {'lift_method_evaluations': 600000,
                  'lift_builtin_evaluations': 600000,
                  'lift_value_agreements': 800000, 'law_samples': 3000000,
-                 'law_exact_tie': 50000,
+                 'law_exact_tie': 50000, 'evaluated_with_non_None_inval': 500000,
+                 'channellist_narop_longer_list_argument': 2000,
                  'stream_history_pulls_compared': 1000000,
                  'reentrant_function_calls_compared': 100000,
                  'concurrent_function_calls_compared': 100000,
@@ -169,7 +171,8 @@ def narop_arg_kinds(akind):
         return ck.NUMBER_KINDS * 2 + ck.FUNC_KINDS
     if fam in ('stream', 'pattern'):
         return ck.NUMBER_KINDS * 2 + ['routine', 'cstream', 'pstream', 'fstream',
-                                      'pattern', 'cpattern']
+                                      'istream', 'pattern', 'cpattern', 'ipattern',
+                                      'ifuncn']
     if fam == 'channels':
         return ck.NUMBER_KINDS
     if fam == 'operand':
@@ -356,6 +359,12 @@ class LiftCase:
             # ugen_param wrappers; a nested list becomes a UGenSequence
             return 'C15/lifting/channels/overridden-method/nested-ChannelList'
         if hook == 'narop' and self.expand:
+            if self.src == 'method' and \
+                    (overridden_by(a, self.e['name']) or '').startswith('ChannelList.'):
+                # ChannelList's own n-ary methods do expand list arguments
+                # (flop): a wrong expansion is not the known list_narop finding
+                return ('C15/lifting/channels/method-narop/'
+                        'ChannelList-list-argument-expansion')
             return 'C15/lifting/channels/narop/list-argument-not-expanded'
         if self.src == 'builtin' and hook == 'binop' and not self.number_left \
                 and fams and fams[0] not in ('number', fam):
@@ -408,6 +417,9 @@ def run_lift(spec, acc, src):
         lc = LiftCase(src, e, i, rng, x0, rng.random() < 0.5)
         ck.EVAL_MODE[0] = 'stream' if rng.random() < 0.4 else \
             rng.choice(ck.EVAL_MODES[1:])
+        ck.INVAL[0] = rng.choice([None, 3, 2.5, -2])
+        if ck.INVAL[0] is not None:
+            acc.count('evaluated_with_non_None_inval')
         ck.CALL_BY_KEYWORD[0] = rng.random() < 0.3
         if ck.CALL_BY_KEYWORD[0]:
             acc.count('functions_called_by_keyword')
@@ -417,6 +429,9 @@ def run_lift(spec, acc, src):
         got = lc.library(a, objs)
         acc.count(cnt)
         acc.count('patterns_evaluated_via_' + ck.EVAL_MODE[0])
+        if lc.expand and lc.src == 'method' and lc.akind == 'chan' and any(
+                ck.is_chan(x) and len(x[1]) > len(nfa[1]) for x in nfs):
+            acc.count('channellist_narop_longer_list_argument')
         if any(ck.family(k) == 'stream' for k in lc.okinds) and \
                 ck.family(lc.akind) == 'pattern' and ck.EVAL_MODE[0] != 'stream':
             acc.count('embedded_pattern_with_stream_argument')
